@@ -10,11 +10,32 @@ import SteelVerif.C02.CoreStable2
 namespace SteelVerif.C02C
 open SteelVerif.C01C
 
-/-- Local soundness in the states that satisfy `Q`. -/
+/-- The operands of a call of a global (what is evaluated before the callee is looked up). -/
+def operandsOf : Core → List Core
+  | .callG _ args => args
+  | _ => []
+
+/-- Local soundness in the states that satisfy `Q` — `Q` is also known to hold after the operands of a global call
+have been evaluated (the callee is looked up then). -/
 def LocalSoundQ (Q : St Core → Prop) (rw : Core → Core) : Prop :=
   ∀ (fuel : Nat) (self : Self) (tail : Bool) (e : Core) (env caps : List Val) (σ : St Core)
     (r : Res (Val × List Val × St Core)), Q σ →
+    (∀ F' env1 σ1, F' < fuel → evalArgs F' self (operandsOf e) env caps σ = .ok (env1, σ1) → Q σ1) →
     evalC fuel self tail e env caps σ = r → r ≠ .timeout → evalC fuel self tail (rw e) env caps σ = r
+
+theorem oracle_nil {Q : St Core → Prop} {self : Self} {env caps : List Val} {σ : St Core} (hq : Q σ) :
+    ∀ (F' : Nat) (env1 : List Val) (σ1 : St Core), evalArgs F' self [] env caps σ = .ok (env1, σ1) → Q σ1 := by
+  intro F' env1 σ1 h
+  cases F' with
+  | zero => simp [evalArgs] at h
+  | succ f => simp [evalArgs] at h; rw [← h.2]; exact hq
+
+theorem evalArgs_mono' (fuel k : Nat) (self : Self) (args : List Core) (env caps : List Val) (σ : St Core)
+    (r : Res (List Val × St Core)) (h : evalArgs fuel self args env caps σ = r) (hr : r ≠ .timeout) :
+    evalArgs (fuel + k) self args env caps σ = r := by
+  induction k with
+  | zero => exact h
+  | succ k ih => exact (mono_all (fuel + k)).2 _ _ _ _ _ _ ih hr
 
 structure QOk (ps : List Nat) (Q : St Core → Prop) (rw : Core → Core) : Prop where
   same : ∀ σ σ', Same ps σ σ' → Q σ → Q σ'
@@ -99,40 +120,42 @@ theorem deepQ_args (hk : QOk ps Q rw) (fuel : Nat) (ih1 : G1Q rw ps Q fuel) (ih2
 theorem deepQ_expr (hk : QOk ps Q rw) (fuel : Nat) (ih1 : G1Q rw ps Q fuel) (ih2 : G2Q rw ps Q fuel) :
     G1Q rw ps Q (fuel + 1) := by
   intro self tail e env caps σ r h hr hn hself henv hcaps hst hq
-  have hls := fun f s t e' en ca r' => hk.ls f s t e' en ca (mS rw σ) r' (hk.map σ hq)
+  have hlsN := fun f s t (e' : Core) en ca r' (hop : operandsOf e' = []) =>
+    hk.ls f s t e' en ca (mS rw σ) r' (hk.map σ hq)
+      (by intro F' e1 s1 _ hev; rw [hop] at hev; exact oracle_nil (hk.map σ hq) F' e1 s1 hev)
   have ST1 := (stable_all ps fuel).1
   have ST2 := (stable_all ps fuel).2
   cases e with
   | const c =>
-    simp only [deep]; refine hls _ _ _ _ _ _ _ ?_ (mR3_ne rw hr)
+    simp only [deep]; refine hlsN _ _ _ _ _ _ _ rfl ?_ (mR3_ne rw hr)
     simp only [evalC] at h ⊢; subst h; simp [mR3, Res.map]
   | loc i mv =>
-    simp only [deep]; refine hls _ _ _ _ _ _ _ ?_ (mR3_ne rw hr)
+    simp only [deep]; refine hlsN _ _ _ _ _ _ _ rfl ?_ (mR3_ne rw hr)
     simp only [evalC, mL, List.getElem?_map] at h ⊢
     cases hv : env[i]? with
     | none => simp only [hv] at h; subst h; simp [mR3, Res.map]
     | some v => simp only [hv] at h; subst h; cases mv <;> simp [mR3, Res.map, List.map_set]
   | cap i =>
-    simp only [deep]; refine hls _ _ _ _ _ _ _ ?_ (mR3_ne rw hr)
+    simp only [deep]; refine hlsN _ _ _ _ _ _ _ rfl ?_ (mR3_ne rw hr)
     simp only [evalC, mL, List.getElem?_map] at h ⊢
     cases hv : caps[i]? with
     | none => simp only [hv] at h; subst h; simp [mR3, Res.map]
     | some v => simp only [hv] at h; subst h; simp [mR3, Res.map]
   | glob g =>
-    simp only [deep]; refine hls _ _ _ _ _ _ _ ?_ (mR3_ne rw hr)
+    simp only [deep]; refine hlsN _ _ _ _ _ _ _ rfl ?_ (mR3_ne rw hr)
     simp only [evalC, mS, mapSt_globals, lookupG_mapG] at h ⊢
     cases hv : lookupG g σ.globals with
     | none => simp only [hv] at h; subst h; simp [mR3, Res.map]
     | some v => simp only [hv] at h; subst h; simp [mR3, Res.map]
   | lam a rr cs body =>
-    simp only [deep]; refine hls _ _ _ _ _ _ _ ?_ (mR3_ne rw hr)
+    simp only [deep]; refine hlsN _ _ _ _ _ _ _ rfl ?_ (mR3_ne rw hr)
     simp only [evalC, mL, capture_mapG] at h ⊢
     cases hv : capture env caps cs with
     | none => simp only [hv] at h; subst h; simp [mR3, Res.map]
     | some cv => simp only [hv] at h; subst h; simp [mR3, Res.map]
   | app f args =>
     simp only [noAssign, Bool.and_eq_true] at hn
-    simp only [deep]; refine hls _ _ _ _ _ _ _ ?_ (mR3_ne rw hr)
+    simp only [deep]; refine hlsN _ _ _ _ _ _ _ rfl ?_ (mR3_ne rw hr)
     simp only [evalC] at h
     simp only [evalC, deepL_length]
     cases hi : evalArgs fuel self args env caps σ with
@@ -178,8 +201,26 @@ theorem deepQ_expr (hk : QOk ps Q rw) (fuel : Nat) (ih1 : G1Q rw ps Q fuel) (ih2
             rw [this]; simp only [ha] at h; subst h; simp [mR2, Res.map]
   | callG g args =>
     simp only [noAssign] at hn
-    simp only [deep]; refine hls _ _ _ _ _ _ _ ?_ (mR3_ne rw hr)
     simp only [evalC] at h
+    simp only [deep]
+    refine hk.ls _ _ _ _ _ _ (mS rw σ) _ (hk.map σ hq) ?_ ?_ (mR3_ne rw hr)
+    · -- `Q` after the operands, on the optimised side
+      intro F' e1 s1 hF hev
+      simp only [operandsOf] at hev
+      have hev' := evalArgs_mono' F' (fuel - F') _ _ _ _ _ _ hev (by simp)
+      rw [show F' + (fuel - F') = fuel by omega] at hev'
+      cases hi : evalArgs fuel self args env caps σ with
+      | timeout => simp only [hi] at h; exact absurd h.symm hr
+      | err k =>
+        rw [ih2 _ _ _ _ _ _ hi (by simp) hn hself henv hcaps hst hq] at hev'
+        simp [mR2a, Res.map] at hev'
+      | ok x =>
+        obtain ⟨env1, σ1⟩ := x
+        rw [ih2 _ _ _ _ _ _ hi (by simp) hn hself henv hcaps hst hq] at hev'
+        simp only [mR2a, Res.map, Res.ok.injEq, Prod.mk.injEq] at hev'
+        obtain ⟨_, a2, a3⟩ := ST2 _ _ _ _ _ _ _ hi hn hself henv hcaps hst
+        rw [← hev'.2]
+        exact hk.map _ (hk.same _ _ a3 hq)
     simp only [evalC, deepL_length]
     cases hi : evalArgs fuel self args env caps σ with
     | timeout => simp only [hi] at h; exact absurd h.symm hr
@@ -217,7 +258,7 @@ theorem deepQ_expr (hk : QOk ps Q rw) (fuel : Nat) (ih1 : G1Q rw ps Q fuel) (ih2
             rw [this]; simp only [ha] at h; subst h; simp [mR2, mR3, Res.map]
   | selfTail args =>
     simp only [noAssign] at hn
-    simp only [deep]; refine hls _ _ _ _ _ _ _ ?_ (mR3_ne rw hr)
+    simp only [deep]; refine hlsN _ _ _ _ _ _ _ rfl ?_ (mR3_ne rw hr)
     simp only [evalC] at h
     simp only [evalC, deepL_length]
     cases tail
@@ -260,7 +301,7 @@ theorem deepQ_expr (hk : QOk ps Q rw) (fuel : Nat) (ih1 : G1Q rw ps Q fuel) (ih2
               rw [this]; simp only [ha] at h; subst h; simp [mR2, mR3, Res.map]
   | ite c t e' =>
     simp only [noAssign, Bool.and_eq_true] at hn
-    simp only [deep]; refine hls _ _ _ _ _ _ _ ?_ (mR3_ne rw hr)
+    simp only [deep]; refine hlsN _ _ _ _ _ _ _ rfl ?_ (mR3_ne rw hr)
     simp only [evalC] at h ⊢
     cases hc : evalC fuel self false c env caps σ with
     | timeout => simp only [hc] at h; exact absurd h.symm hr
@@ -279,7 +320,7 @@ theorem deepQ_expr (hk : QOk ps Q rw) (fuel : Nat) (ih1 : G1Q rw ps Q fuel) (ih2
       · simp only [ht, if_false] at h ⊢; exact ih1 _ _ _ _ _ _ _ h hr hn.2 hself a2 hcaps a3 hq1
   | let_ off inits body =>
     simp only [noAssign, Bool.and_eq_true] at hn
-    simp only [deep]; refine hls _ _ _ _ _ _ _ ?_ (mR3_ne rw hr)
+    simp only [deep]; refine hlsN _ _ _ _ _ _ _ rfl ?_ (mR3_ne rw hr)
     simp only [evalC] at h ⊢
     cases hi : evalArgs fuel self inits env caps σ with
     | timeout => simp only [hi] at h; exact absurd h.symm hr
@@ -308,7 +349,7 @@ theorem deepQ_expr (hk : QOk ps Q rw) (fuel : Nat) (ih1 : G1Q rw ps Q fuel) (ih2
         · simp only [hl, if_false] at h ⊢; subst h; simp [Res.map, List.map_take]
   | seq a b =>
     simp only [noAssign, Bool.and_eq_true] at hn
-    simp only [deep]; refine hls _ _ _ _ _ _ _ ?_ (mR3_ne rw hr)
+    simp only [deep]; refine hlsN _ _ _ _ _ _ _ rfl ?_ (mR3_ne rw hr)
     simp only [evalC] at h ⊢
     cases ha : evalC fuel self false a env caps σ with
     | timeout => simp only [ha] at h; exact absurd h.symm hr
@@ -324,7 +365,7 @@ theorem deepQ_expr (hk : QOk ps Q rw) (fuel : Nat) (ih1 : G1Q rw ps Q fuel) (ih2
       exact ih1 _ _ _ _ _ _ _ h hr hn.2 hself a2 hcaps a3 (hk.same _ _ a4 hq)
   | setLoc i e' =>
     simp only [noAssign] at hn
-    simp only [deep]; refine hls _ _ _ _ _ _ _ ?_ (mR3_ne rw hr)
+    simp only [deep]; refine hlsN _ _ _ _ _ _ _ rfl ?_ (mR3_ne rw hr)
     simp only [evalC] at h ⊢
     cases he : evalC fuel self false e' env caps σ with
     | timeout => simp only [he] at h; exact absurd h.symm hr
@@ -341,7 +382,7 @@ theorem deepQ_expr (hk : QOk ps Q rw) (fuel : Nat) (ih1 : G1Q rw ps Q fuel) (ih2
       | some old => simp only [ho] at h; subst h; simp [Res.map, List.map_set]
   | boxop op args =>
     simp only [noAssign] at hn
-    simp only [deep]; refine hls _ _ _ _ _ _ _ ?_ (mR3_ne rw hr)
+    simp only [deep]; refine hlsN _ _ _ _ _ _ _ rfl ?_ (mR3_ne rw hr)
     simp only [evalC] at h ⊢
     cases hi : evalArgs fuel self args env caps σ with
     | timeout => simp only [hi] at h; exact absurd h.symm hr
@@ -365,7 +406,7 @@ theorem deepQ_expr (hk : QOk ps Q rw) (fuel : Nat) (ih1 : G1Q rw ps Q fuel) (ih2
         | ok z => simp only [ha] at h; subst h; simp [mR3, Res.map]
   | define g e' =>
     simp only [noAssign, Bool.and_eq_true] at hn
-    simp only [deep]; refine hls _ _ _ _ _ _ _ ?_ (mR3_ne rw hr)
+    simp only [deep]; refine hlsN _ _ _ _ _ _ _ rfl ?_ (mR3_ne rw hr)
     simp only [evalC] at h ⊢
     cases he : evalC fuel self false e' env caps σ with
     | timeout => simp only [he] at h; exact absurd h.symm hr
@@ -377,7 +418,7 @@ theorem deepQ_expr (hk : QOk ps Q rw) (fuel : Nat) (ih1 : G1Q rw ps Q fuel) (ih2
       simp only [he] at h; subst h; simp [mR3, Res.map, mapSt]
   | setGlob g e' =>
     simp only [noAssign, Bool.and_eq_true] at hn
-    simp only [deep]; refine hls _ _ _ _ _ _ _ ?_ (mR3_ne rw hr)
+    simp only [deep]; refine hlsN _ _ _ _ _ _ _ rfl ?_ (mR3_ne rw hr)
     simp only [evalC] at h ⊢
     cases he : evalC fuel self false e' env caps σ with
     | timeout => simp only [he] at h; exact absurd h.symm hr
